@@ -280,7 +280,13 @@ impl Check for C01 {
     fn required_counters(&self, _tier: Tier) -> Vec<&'static str> {
         vec!["reads-from-disk", "reads-from-cache", "ops:overwrite", "ops:remove", "out-of-spawn-order-completions", "burst:notifications-beyond-channel-capacity", "cleanup:removed-keys-judged"]
     }
+    fn lane_cases(&self, tier: Tier) -> u64 {
+        tier.pick(16, 96)
+    }
     fn run_case(&self, cx: &mut Cx) {
+        if cx.index >= LANE_BASE {
+            return crate::realcases::c01_case(cx);
+        }
         if cx.index == 1 {
             burst_case(cx);
             return;
